@@ -871,6 +871,7 @@ impl World {
             "ready": self.ready,
             "answered": self.answered,
             "stable": self.stable,
+            "nt": {"c": self.needs_tick_ms(0), "s": self.needs_tick_ms(1)},
         })
     }
 
